@@ -112,6 +112,7 @@ fn walk(nodes: &[Node], dt: &mut DrawTarget, ctx: &mut ClipCtx, xf: &mut Xf, wk:
                 }
                 wk.exact_ok.push(ok);
                 wk.kinds.push(if matches!(push, Op::PushClipRect(..)) { 'r' } else { 'p' });
+                wk.o.class_if(matches!(push, Op::PushClipPath(_)) && xf_det(xf) == 0.0, "clip-path-pushed-under-a-singular-transform");
                 if let Op::PushClipRect(a, b, c, d) = push {
                     wk.o.class_if(c < a || d < b, "inverted-rect");
                 }
@@ -146,9 +147,21 @@ pub fn strategy(ctx: &Ctx) -> BoxedStrategy<Case> {
             let mut d = Domain::exact(w, h);
             d.max_depth = 5;
             d.max_nodes = 4;
-            (Just((w, h)), init_pixels(w, h), tree(&ctx, &d))
+            (Just((w, h)), init_pixels(w, h), tree(&ctx, &d), prop::option::weighted(0.12, xf_singular()))
         })
-        .prop_map(|((w, h), init, nodes)| Case { w, h, init, nodes })
+        .prop_map(|((w, h), init, mut nodes, sing)| {
+            // one history in eight pushes its first top-level clip path while a non-invertible transform is set (the
+            // transform is put back before anything is drawn under it): such a clip hides everything
+            if let Some(sx) = sing {
+                if let Some(i) = nodes.iter().position(|n| matches!(n, Node::Clip(Op::PushClipPath(_), _))) {
+                    if let Node::Clip(_, kids) = &mut nodes[i] {
+                        kids.insert(0, Node::Op(Op::SetXf(IDENT)));
+                    }
+                    nodes.insert(i, Node::Op(Op::SetXf(sx)));
+                }
+            }
+            Case { w, h, init, nodes }
+        })
         .boxed()
 }
 
